@@ -306,7 +306,7 @@ def render_v3000(mol: Mol, style: V3Style | None = None, rng: random.Random | No
     logical.append(("frame", "BEGIN CTAB"))
     n_atom_lines = n + len(star_bonds)
     n_bond_lines = len(plain_bond_ids) + len(star_bonds)
-    nsg = 1 if style.trailing_blocks else 0
+    nsg = 2 if style.trailing_blocks else 0
     counts = _join(["COUNTS", str(n_atom_lines), str(n_bond_lines), str(nsg), "0", "0"], rng, style.blanks)
     if style.counts_extra:
         counts = _join(["COUNTS", str(n_atom_lines), str(n_bond_lines), str(nsg), "0", "1", "REGNO=12"], rng, style.blanks)
@@ -407,7 +407,11 @@ def render_v3000(mol: Mol, style: V3Style | None = None, rng: random.Random | No
         obs["linknode_lines"] = obs.get("linknode_lines", 0) + 1
     if style.trailing_blocks:
         logical.append(("frame", "BEGIN SGROUP"))
-        logical.append(("frame", "1 SUP 1 ATOMS=(1 %d) LABEL=X" % index_map[0]))
+        label = rng.choice(["X", "5'-P", "Ph", "\"tert-butyl group\"", "N(Me)2", "3'-OH", "a\\b"])
+        logical.append(("frame", "1 SUP 1 ATOMS=(1 %d) LABEL=%s" % (index_map[0], label)))
+        logical.append(("frame", "2 DAT 2 ATOMS=(1 %d) FIELDNAME=note FIELDDATA=%s" % (index_map[0], rng.choice(["3'-OH", "\"melting point 5 C\"", "x"]))))
+        if "'" in label or '"' in label:
+            obs["sgroup_text_with_quotes"] = obs.get("sgroup_text_with_quotes", 0) + 1
         logical.append(("frame", "END SGROUP"))
         logical.append(("frame", "BEGIN COLLECTION"))
         logical.append(("frame", "MDLV30/HILITE ATOMS=(1 %d)" % index_map[0]))
@@ -451,6 +455,7 @@ class V2Style:
     after_end: str = ""
     final_eol: bool = False
     stereo_fields: bool = False
+    counts_noise: bool = False  # non-identity fields of the counts line (chiral flag) take other legal values
     two_line_records: float = 0.0  # probability per slot of a two-line record whose text looks like a property line
 
 
@@ -532,7 +537,11 @@ def render_v2000(mol: Mol, style: V2Style | None = None, rng: random.Random | No
     obs.setdefault("encoding", {})
     obs["encoding"][enc] = obs["encoding"].get(enc, 0) + 1
     lines = list((style.header or [mol.name or "", "  rvharness", ""])[:3])
-    lines.append(f"{n:3d}{len(mol.bonds):3d}{style.atom_lists:3d}  0  0  0  0  0  0  0999 V2000")
+    # aaabbblllfffcccsssxxxrrrpppiiimmmvvvvvv : fff obsolete, ccc chiral flag (0/1), sss..iii obsolete (kept 0), mmm = 999
+    chiral = rng.choice([0, 1]) if style.counts_noise else 0
+    if chiral:
+        obs["v2000_chiral_flag_set"] = obs.get("v2000_chiral_flag_set", 0) + 1
+    lines.append(f"{n:3d}{len(mol.bonds):3d}{style.atom_lists:3d}  0{chiral:3d}  0  0  0  0  0999 V2000")
     chg_entries, rad_entries, iso_entries = [], [], []
     for k, a in enumerate(mol.atoms):
         sym = a.sym
